@@ -103,3 +103,27 @@ pub fn random_with_ident(rng: &mut Rng, enc: Enc, len: usize) -> Vec<u8> {
     v.append(&mut rest);
     v
 }
+
+/// Make `k` sections (or segments) claim large overlapping ranges: from their offset (or from 0) to the
+/// end of the file. Files in which several tables each span nearly the whole file are legal input.
+pub fn maximize_ranges(rng: &mut Rng, b: &mut Built, k: usize) -> Vec<String> {
+    let mut log = Vec::new();
+    let flen = b.bytes.len() as u64;
+    let secs: Vec<usize> = (1..b.secs.len()).filter(|i| b.field(&format!("shdr[{i}].sh_size")).is_some()).collect();
+    if secs.is_empty() {
+        return log;
+    }
+    for _ in 0..k {
+        let i = secs[rng.usize_below(secs.len())];
+        let cur_off = b.field(&format!("shdr[{i}].sh_offset")).and_then(|f| b.enc.get(&b.bytes, f.off, f.w)).unwrap_or(0);
+        let off = match rng.below(3) {
+            0 => 0,
+            1 => rng.below(64.min(flen)),
+            _ => cur_off.min(flen),
+        };
+        b.poke(&format!("shdr[{i}].sh_offset"), off);
+        b.poke(&format!("shdr[{i}].sh_size"), flen - off);
+        log.push(format!("shdr[{i}] := [{off:#x}, EOF)"));
+    }
+    log
+}
